@@ -85,7 +85,7 @@ pub struct CaseResult {
     pub calls: u64,
 }
 
-const WALL_BACKSTOP: Duration = Duration::from_secs(90);
+const WALL_BACKSTOP: Duration = Duration::from_secs(300);
 
 /// exit code used when a run neither finishes nor allocates (cannot be contained in-process)
 pub const EXIT_WALL_HANG: i32 = 4;
